@@ -73,9 +73,9 @@ def run(tier, seed):
     u = 2.0 ** -53
     CL = 4
     nlong = 0
-    for n in ((1000, 3000) if quick else (1000, 10 ** 4, 10 ** 5)):
+    for n in ((1000, 3000) if quick else (1000, 10 ** 4, 10 ** 5, 10 ** 6)):
         for name in ("random", "sorted", "alternating", "jump", "offset9"):
-            for mag in (1e-8, 1.0, 1e8):
+            for mag in ((1e-8, 1.0, 1e8) if n < 10 ** 6 else (1.0,)):
                 spread = [rng.uniform(-1, 1) for _ in range(n)]
                 off = 1e9 if name == "offset9" else 10.0
                 vals = [mag * (off + s_) for s_ in spread]
@@ -156,6 +156,6 @@ def run(tier, seed):
     ctx.add_stage("SlidingWindowTracker mean on spike / offset / jump streams against the exact window mean", "float_twin", runs=nsw)
     ctx.assume("the TLC clauses cover kappa-ill-conditioned streams of n <= 32 values, magnitudes 2^-28..2^27, five orderings (TLC has "
                "no floats and 32-bit integers); streams of 10^3..10^5 values are compared with exact rational arithmetic at the "
-               "float level (C = 4); 10^6 values are not run")
+               "float level (C = 4), 10^6 values at magnitude 1 in the thorough tier")
     ctx.assume("C = 8 against a measured worst case of 0.25 (Welford) / 0.67 (smoothing) units")
     return ctx.finish()
